@@ -1,4 +1,5 @@
 """Rules added after the third round of independently seeded changes."""
+import re
 from ..framework import rule
 from ..core import *
 from ..lib import *
@@ -504,3 +505,54 @@ def r17_7(ctx):
                         "(e.g. SYN+RST) are handed to the socket as an ordinary segment and advance its state", body=b, bb=bad[0][0], path=bad[0][1])
             else:
                 ctx.ok(('control', var, flag), sample=dict(control=var, requires=f"!{flag}()"))
+
+
+@rule('R03.9', ['C03', 'C07'], floor=3, clause='an IEEE 802.15.4 frame view is handed out checked only with a known frame version and known addressing modes: the 6LoWPAN fragment key unwraps src_addr()/dst_addr(), which are None for the unknown encodings')
+def r03_9(ctx):
+    F = ctx.F
+    b = ctx.method('wire::ieee802154::Frame', 'new_checked')
+    sites = [x[0] for x in agg_sites(b, 'std::result::Result', ['Ok'])]
+    ctx.need(sites, "Ok(..) construction in ieee802154::Frame::new_checked")
+
+    def notunk(adt, call):
+        def pred(f):
+            if f[0] not in ('is', 'isnot') or f[3] != adt or not is_call(strip(f[1]), call):
+                return False
+            return ('Unknown' in f[2]) if f[0] == 'isnot' else (f[2] != 'Unknown')
+        return pred
+    for adt, call in (('wire::ieee802154::FrameVersion', 'frame_version'), ('wire::ieee802154::AddressingMode', 'dst_addressing_mode'),
+                      ('wire::ieee802154::AddressingMode', 'src_addressing_mode')):
+        bad = unguarded(F, b, sites, notunk(adt, '::' + call))
+        if bad:
+            ctx.bad(f"ieee802154::Frame::new_checked|{call}-unknown", f"new_checked() accepts a frame whose {call}() is Unknown: src_addr()/dst_addr() are None for it and "
+                    "SixlowpanFragPacket::get_key (reached from Interface::poll for a FRAG1/FRAGN payload) unwraps them", body=b, bb=bad[0][0], path=bad[0][1])
+        else:
+            ctx.ok(('new_checked', call), sample=dict(fn='ieee802154::Frame::new_checked', rejects=f"{call}() == Unknown"))
+
+
+_SPARSE_IDX = re.compile(r'(Filter|FilterMap|SkipWhile|TakeWhile|Skip|StepBy)<std::iter::Enumerate<')
+
+
+@rule('R06.11', ['C06'], floor=2, clause='where a wire emitter numbers the present entries of an optional list to position them (TCP SACK ranges), the numbering is applied after the filtering: positions are dense, as buffer_len() counts them')
+def r06_11(ctx):
+    F = ctx.F
+    # positive control of the matcher (the expected number of matches in the repository is zero)
+    ctx.need(_SPARSE_IDX.search("std::iter::Filter<std::iter::Enumerate<std::slice::Iter<'_, u8>>, {closure}>") is not None
+             and _SPARSE_IDX.search("std::iter::Enumerate<std::iter::Filter<std::slice::Iter<'_, u8>, {closure}>>") is None, "adaptor-order matcher self-test")
+    ctx.ok(('matcher', 'self-test'), sample=dict(matches='Filter<Enumerate<..>>', rejects='Enumerate<Filter<..>>'))
+    n = 0
+    for k, b in sorted(F.bodies.items()):
+        if not k.startswith('wire::') or '::test' in k:
+            continue
+        tys = [l['ty'] for l in b.locals]
+        if not any('std::iter::Enumerate<' in t for t in tys):
+            continue
+        n += 1
+        hit = [t for t in tys if _SPARSE_IDX.search(t)]
+        short = k.replace("::<'a>", '').replace('::<T>', '')
+        if hit:
+            ctx.bad(f"{short}|filter-over-enumerate", f"{short} numbers the entries before dropping the absent ones ({hit[0][:90]}...): the positions computed from the "
+                    "index have gaps, so present entries are written past the length buffer_len() declares (or leave unwritten holes)", body=b, bb=0)
+        else:
+            ctx.ok((short, 'dense-index'), sample=dict(fn=short, adaptor='Enumerate applied to the already filtered / complete sequence'))
+    ctx.need(n >= 1, "enumerate() adaptors in wire:: functions")
